@@ -51,6 +51,8 @@ func checkC08(p *Prog, r *Report) {
 	r.floor("unordered loops in URL.String", nUn, 2)
 	r.floor("sorts in URL.String", nSorts, 2)
 	checkC08FieldsAccepted(p, r)
+	r.rule("C08.list-split: every strings splitter on the NewSimpleURL path is Split/SplitN at the constant \",\" (lists) or \"/\" (path), the separators String() writes")
+	checkListSplit(p, r, ns)
 	checkFieldsDefault(p, r, "C08")
 	checkFieldsFresh(p, r, "C08")
 	checkSortCompletion(p, r)
@@ -1583,4 +1585,39 @@ func sameAccumulation(a, b ssa.Value) bool {
 		}
 	}
 	return false
+}
+
+// checkListSplit: String() writes the items of fields[...] and sort lists
+// separated by a comma and nothing else; NewSimpleURL's readers must cut the
+// lists at commas only. Every standard-library splitter used on the way from
+// NewSimpleURL (parseCommaList and the like) is strings.Split / SplitN(-1)
+// with the constant separator ",".
+func checkListSplit(p *Prog, r *Report, ns *ssa.Function) {
+	n := 0
+	for _, g := range append([]*ssa.Function{ns}, stringHelpers(ns)...) {
+		eachInstr(g, func(ins ssa.Instruction) {
+			c, ok := ins.(*ssa.Call)
+			if !ok || c.Common().StaticCallee() == nil || c.Common().StaticCallee().Pkg == nil || c.Common().StaticCallee().Pkg.Pkg.Path() != "strings" {
+				return
+			}
+			st, ok := c.Type().Underlying().(*types.Slice)
+			if !ok {
+				return
+			}
+			if b, ok := st.Elem().Underlying().(*types.Basic); !ok || b.Info()&types.IsString == 0 {
+				return
+			}
+			n++
+			name := c.Common().StaticCallee().Name()
+			good := false
+			if (name == "Split" || name == "SplitN") && len(c.Common().Args) >= 2 {
+				if sep, ok := constString(c.Common().Args[1]); ok && (sep == "," || sep == "/") {
+					good = true
+				}
+			}
+			r.decide(good, "C08.list-split", funcName(g)+":"+p.describe(c), p.pos(c.Pos()), "lists are cut at the separator String() writes",
+				"a list read from the URL is cut with "+name+" at something other than the single comma (or slash, for the path) that String() writes between items: a name containing the extra separator (a space, say) is printed as one item and read back as two, so String() is not a fixed point of parsing")
+		})
+	}
+	r.floor("list splitters on the NewSimpleURL path", n, 1)
 }
